@@ -331,6 +331,13 @@ def check_C18(res):
                     nm = a['msg'].rsplit(': ', 1)[-1]
                     named = [cid for cid, d in names.items() if d['name'] == nm]
                     want = 'elected' if a['tag'] == 'elect' else 'defeated'
+                    if len(named) > 1:
+                        # namesakes: the one whose status changes is the one meant (else any of them in the right state,
+                        # for the re-elections that cfer's 'Elect pending' and QPQ's restart produce)
+                        if len(changed) == 1 and changed[0] in named:
+                            named = changed
+                        else:
+                            named = [c_ for c_ in named if a['cstate'][c_]['state'] == want][:1]
                     if len(named) != 1 or a['cstate'][named[0]]['state'] != want:
                         res.violation('%s action does not name a candidate that is %s (%s: %s)' % (a['tag'], want, rule, a['msg']), H.wit(data, rule, opts))
                     elif rule == 'qpq' and a['tag'] == 'elect' and \
@@ -395,7 +402,8 @@ def check_C18(res):
             res.violation('dump has %d rows for %d actions' % (len(rows) - 1, len(acts)), H.wit(data, rule, opts))
         # report: every 'Elected/Hopeful/Defeated/Pending: name (tally)' line agrees with the record, in order
         rep = E.report()
-        if rule != 'qpq':
+        unique_names = len({d['name'] for d in names.values()}) == len(names)
+        if rule != 'qpq' and unique_names:
             blocks = rep.split('Action: ')[1:]
             sba = [a for a in acts if a['tag'] not in ('log', 'round')]
             if len(blocks) != len(sba):
@@ -415,7 +423,14 @@ def check_C18(res):
                                     cids = [cid for cid, d in names.items() if d['name'] == nm]
                                     if len(cids) != 1 or a['cstate'][cids[0]]['state'] != stt or str(a['cstate'][cids[0]]['vote']) != tal:
                                         res.violation('report line %r disagrees with the record (%s)' % (line, rule), H.wit(data, rule, opts))
-    H.run_counts(res, H.RULES, res.tier, res.seed, per, with_withdrawn=True, grid=True)
+    H.run_counts(res, H.RULES, res.tier, res.seed, per, with_withdrawn=True, grid=True, time_budget=18 if res.tier == 'quick' else 500)
+
+    def namesakes(p):
+        n = p['ncand']
+        p['names'] = ['"Smith"' if i <= 2 else '"Jones"' if i <= 4 else '"c%d"' % i for i in range(1, n + 1)]
+        return p
+    H.run_counts(res, H.RULES, res.tier, res.seed + 3, per, with_withdrawn=True, grid=False, mutate=namesakes,
+                 time_budget=10 if res.tier == 'quick' else 300)
 
 
 def check_C19(res):
